@@ -374,6 +374,102 @@ def run_checked(mach, ref, data=None, path=None, what='machine'):
     return data, problems
 
 
+
+# ------------------------------------------------------------------------------------------------
+# clause 4 ("re-produce"): produced bytes are a function of the field values alone, not of what the same dict produced before
+#
+# The caller's dict is produced once (the producers leave rendered `input` octets, lengths, sizes... behind in it), then every
+# field is overwritten in place with the values of a second message of identical shape (one plain integer field of the
+# description changed by one bit) and it is produced again: the bytes must be those a fresh dict holding the second message's
+# values produces (which the main clauses compare with the reference encoder).
+
+import copy
+import json
+import zlib
+
+STRUCTURAL_KEYS = ('t', 'k', 'svc', 'dir', 'cmd', 'type', 'status', 'large', 'variant', 'type_id', 'raw', 'data')
+
+
+def _int_leaves(node, out, key=None):
+    if isinstance(node, dict):
+        for k in sorted(node):
+            if k in STRUCTURAL_KEYS:
+                continue
+            if key in ('O_T', 'T_O') and k not in ('connection_ID', 'RPI'):
+                # Forward Open connection parameters: produce() documents that it replaces the supplied parameters with their
+                # complete decoding (incl. NCP), and an NCP that is present is authoritative over the individual fields
+                continue
+            _int_leaves(node[k], out, k) if isinstance(node[k], (dict, list)) else (
+                out.append((node, k)) if isinstance(node[k], int) and not isinstance(node[k], bool) else None)
+    elif isinstance(node, list):
+        for i, v in enumerate(node):
+            if isinstance(v, (dict, list)):
+                _int_leaves(v, out, key)
+
+
+def mutate_desc(desc):
+    """-> (copy of the description with one plain integer field changed in its lowest bit, 'key') or (None, None)"""
+    d2 = copy.deepcopy(desc)
+    leaves = []
+    _int_leaves(d2, leaves)
+    if not leaves:
+        return None, None
+    n = zlib.crc32(json.dumps(desc, sort_keys=True, default=str).encode())
+    node, k = leaves[n % len(leaves)]
+    node[k] ^= 1
+    return d2, k
+
+
+def keytree(d):
+    if isinstance(d, dict):
+        return {k: keytree(dict.__getitem__(d, k)) for k in dict.keys(d)}
+    if isinstance(d, list):
+        return [keytree(x) for x in d]
+    return None
+
+
+def merge_into(dst, src):
+    """overwrite, in place, every field of dst with the value src holds (what a caller re-using a message dict does)"""
+    for k in dict.keys(src):
+        v = dict.__getitem__(src, k)
+        cur = dict.get(dst, k)
+        if isinstance(v, dict) and isinstance(cur, dict):
+            merge_into(cur, v)
+        elif isinstance(v, list) and isinstance(cur, list) and len(v) == len(cur) and all(isinstance(x, dict) for x in v + cur):
+            for a, b in zip(cur, v):
+                merge_into(a, b)
+        else:
+            dict.__setitem__(dst, k, v)
+
+
+def reproduce_clause(sigbase, desc, build, finish, ctx):
+    """build(desc) -> fresh dict; finish(d, desc) -> bytes"""
+    desc2, key = mutate_desc(desc)
+    if desc2 is None:
+        return []
+    try:
+        shape1 = keytree(build(desc))
+        fresh2 = build(desc2)
+        if keytree(fresh2) != shape1:
+            return []
+        d1 = build(desc)
+        guarded(lambda: finish(d1, desc))
+        want = bytes(guarded(lambda: finish(build(desc2), desc2)))
+    except LibError:
+        return []           # reported by the main clauses
+    merge_into(d1, fresh2)
+    if ctx.stats is not None:
+        ctx.stats.count('reproduce:evaluated')
+    try:
+        out = bytes(guarded(lambda: finish(d1, desc2)))
+    except LibError as e:
+        return [exc_fail(sigbase, 'reproduce', e)]
+    if out != want:
+        f = bytes_fail(sigbase + ':reproduce:bytes', out, want)
+        f[1]['changed_field'] = key
+        return [f]
+    return []
+
 # ------------------------------------------------------------------------------------------------
 # element checks
 
@@ -502,8 +598,11 @@ def check_mr(m, opts, ctx):
         strip_member_inputs(data)
         return dialect.produce(data)
 
-    return three_clauses(mr_sigbase(m), ref, not why, True, lambda: dialect.produce(D(d_mr(m, opts))), parse,
-                         e_mr(m), regen)
+    fails = three_clauses(mr_sigbase(m), ref, not why, True, lambda: dialect.produce(D(d_mr(m, opts))), parse,
+                          e_mr(m), regen)
+    if not why and not fails:
+        fails += reproduce_clause(mr_sigbase(m), m, lambda mm: D(d_mr(mm, opts)), lambda d, mm: dialect_of(mm).produce(d), ctx)
+    return fails
 
 
 # ------------------------------------------------------------------------------------------------
@@ -591,8 +690,16 @@ def check_wrapper(w, opts, ctx):
         regen_item_inputs([data], fake)
         return P.unconnected_send.produce(dict.__getitem__(data, 'unconnected_send'))
 
-    return three_clauses('wrapper:' + w['k'], ref, not why, amb is None, produce, parse,
-                         e_wrapper(w, 'unconnected_send.'), regen)
+    fails = three_clauses('wrapper:' + w['k'], ref, not why, amb is None, produce, parse,
+                          e_wrapper(w, 'unconnected_send.'), regen)
+
+    def finish(d, ww):
+        prepare_item_inputs(d, {'t': 'unconn_data', 'payload': ww})
+        return P.unconnected_send.produce(d['unconnected_send'])
+
+    if not why and not fails:
+        fails += reproduce_clause('wrapper:' + w['k'], w, lambda ww: D({'unconnected_send': d_wrapper(ww, opts)}), finish, ctx)
+    return fails
 
 
 def item_sig(items):
@@ -627,7 +734,16 @@ def check_cpf(c, opts, ctx):
         regen_item_inputs(lst if found else [], items)
         return P.CPF.produce(dict.__getitem__(data, 'CPF'))
 
-    return three_clauses('cpf', ref, not why, amb is None, produce, parse, e_cpf(items, 'CPF.'), regen)
+    fails = three_clauses('cpf', ref, not why, amb is None, produce, parse, e_cpf(items, 'CPF.'), regen)
+
+    def finish(d, cc):
+        for idd, it in zip(dict.get(d, 'item', []), cc['items']):
+            prepare_item_inputs(idd, it)
+        return P.CPF.produce(d)
+
+    if not why and not fails:
+        fails += reproduce_clause('cpf', c, lambda cc: D(d_cpf(cc['items'], opts)), finish, ctx)
+    return fails
 
 
 def check_frame(f, opts, ctx):
@@ -669,7 +785,18 @@ def check_frame(f, opts, ctx):
         dict.__setitem__(enip, 'input', bytearray(P.CIP.produce(enip)))
         return P.enip_encode(enip)
 
-    return three_clauses('frame:' + c['cmd'], ref, not why, amb is None, produce, parse, e_frame(f), regen)
+    fails = three_clauses('frame:' + c['cmd'], ref, not why, amb is None, produce, parse, e_frame(f), regen)
+
+    def finish(enip, ff):
+        found, lst = get_path(enip, cip + '.CPF.item')
+        for idd, it in zip(lst if found else [], ff['command'].get('items') or []):
+            prepare_item_inputs(idd, it)
+        dict.__setitem__(enip, 'input', bytearray(P.CIP.produce(enip)))
+        return P.enip_encode(enip)
+
+    if not why and not fails:
+        fails += reproduce_clause('frame:' + c['cmd'], f, lambda ff: D(d_frame(ff, opts)), finish, ctx)
+    return fails
 
 
 # ------------------------------------------------------------------------------------------------
